@@ -304,19 +304,24 @@ def confirm_undeleted(ctx, drv, it):
 
 
 # ------------------------------------------------------------------ generation
+# station codes of the composition's own transmitter (two listed stations a/b and an unlisted code u per carrier)
+ST_CODE = dict(vps=dict(a=0xAC1, b=0xAC2, u=0x123), p1=dict(a=0x4301, b=0x4302, u=0x1234), p2=dict(a=0x1AC1, b=0x1AC2, u=0x5123))
+ST_PIL = dict(a=0x12345, b=0x2468A, u=0x3F0F0)
+ST_TIME = dict(a=(0x45000, 0x123456, 2), b=(0x51603, 0x213243, -7), u=(0x53735, 0x235959, 0))
+
+
 def station_packets(drv):
-    from checks import c13
     lines, keys = [], []
     for c in ("vps", "p1", "p2"):
         for v in ("a", "b", "u"):
-            code = c13.CODE[c][v]
+            code = ST_CODE[c][v]
             if c == "vps":
-                lines.append("ev %x %x" % (code, c13.PIL[v]))
+                lines.append("ev %x %x" % (code, ST_PIL[v]))
             elif c == "p1":
-                mjd, utc, lto = c13.TIME[v]
+                mjd, utc, lto = ST_TIME[v]
                 lines.append("e1 %x %x %x %d" % (code, mjd, utc, lto))
             else:
-                lines.append("e2 %x %x" % (code, c13.PIL[v]))
+                lines.append("e2 %x %x" % (code, ST_PIL[v]))
             keys.append((c, v))
     rc, so, se, to = core.run_driver([drv], "\n".join(lines) + "\n", timeout=60, env=build.san_env())
     hexes = [json.loads(l)["hex"] for l in so.split("\n") if l.startswith("{")]
